@@ -16,6 +16,7 @@ CONSTANTS
   Emit = FALSE
   ConstSd = 0
   NGaps = 2
+  WeakVariant = ""
 INIT Init
 NEXT Next
 INVARIANTS C01 C02 C03 C04 C18 WindowBounded IdsConsistent
